@@ -88,6 +88,9 @@ func (lr *ledgerRun) loop(strictProp string, before func(rr *scen.RoundResult) b
 		if rr.Txs > 0 {
 			lr.r.Probe("block_with_txs")
 		}
+		if sn := lr.nodes[0].App.State.ShardsNum(); sn > 1 {
+			lr.r.Probe(fmt.Sprintf("block_in_a_network_of_%d_shards", sn))
+		}
 		if rr.Empty {
 			lr.r.Probe("empty_block")
 		}
@@ -146,7 +149,7 @@ func runC01(r *vfw.Run) {
 		forkScenario(r, true)
 		return
 	}
-	o := scen.Opts{MinIdent: 1, MaxIdent: 24, Zones: true, Skew: true, CeremonySoon: true}
+	o := scen.Opts{MinIdent: 1, MaxIdent: 24, Zones: true, Skew: true, CeremonySoon: true, SmallShards: true}
 	big := false
 	if r.Choose("cfg.bignet", 7) == 6 {
 		// large network with the protocol's own epoch length (weekday normalisation etc.)
